@@ -4,9 +4,10 @@ From Tempest Require Import Base.Ops Model.Mixture.
 From Tempest Require Gen.Mixture.
 Local Open Scope Q_scope.
 
-(** the M-step uses responsibilities times sample weights, divides means and covariances by mass + 1e-10 *)
-Lemma link_mean_denominator m eps : Gen.Mixture.mean_denominator QOps m eps = m + eps.
-Proof. reflexivity. Qed.
+(** the M-step uses responsibilities times sample weights; the means are divided by the mass itself (1 for a massless component) *)
+Lemma link_mean_denominator m : Gen.Mixture.mean_denominator QOps m = safe_mass m.
+Proof. unfold Gen.Mixture.mean_denominator, safe_mass. cbn [o_ltb o_zero o_one QOps]. unfold Qltb.
+  destruct (Qle_bool m 0); reflexivity. Qed.
 Lemma link_structure :
   Gen.Mixture.weighted_resp_is_resp_times_sample_weight = true
   /\ Gen.Mixture.weights_are_masses_over_total = true
